@@ -40,6 +40,9 @@ def slot_doc(rng):
         lambda: f"1. x {m()}\n2. y",
         lambda: f"<div>{m()}</div>\n\n<b>{m()}</b> text",
         lambda: f"\\{m()} &{m()};",
+        # pairs whose closing run is longer / shorter than the opening one, inside link text: the closers must stay inside
+        lambda: rng.choice(["[~~a~~~](u)", "[~~~a~~~](u)", "x [b ~~c~~~](/url \"t\") y", "[**a***](u)", "[*a [b*](u)", "[~~a](u)~~ ~",
+                            "~~[x ~~y~~~](/u)~~", "[~~a~~~~~](u) ~~b~~~", "![~~a~~~](u) [_a__](v)"]) + f" {m()}",
     ]
     return "\n\n".join(rng.choice(forms)() for _ in range(rng.randrange(1, 4))) + "\n"
 
@@ -65,6 +68,52 @@ def direct_property(cfg, src):
     return None
 
 
+HISTORY_DOCS = ["1 \\< 2 \\> 0 &amp; &lt;b&gt; \\& \"q\"\n", "AT&amp;T \\<script\\> &#60;\n", "[l \\<](/u \"t \\>\") ![a &lt;](/s)\n",
+                "# h \\< &gt;\n\n> q \\&\n\n- i &amp; \\<\n\n| c \\< |\n|---|\n| &lt; |\n"]
+
+
+def history_property(cfg):
+    """An instance whose REPORTED configuration is html-off and supported, reached through a history of
+    management calls (reset_rules blocks, configure again, disable/enable round trips), must produce
+    safe output like a fresh one: the property quantifies over configurations, however reached."""
+    import contextlib
+    histories = {
+        "reset_rules block that disables text_join and parses": lambda md: _block(md, ["text_join"]),
+        "reset_rules block that disables escape, entity and parses": lambda md: _block(md, ["escape", "entity"]),
+        "disable text_join, parse, enable again": lambda md: (md.disable("text_join"), md.parse("a \\< b"), md.enable("text_join")),
+        "disable text_join, parse, configure the same preset again": lambda md: (md.disable("text_join"), md.parse("a \\< b"),
+                                                                                 md.configure(cfg["preset"], dict(cfg["options"]))),
+    }
+
+    def _block(md, names):
+        with md.reset_rules():
+            md.disable(names)
+            md.parse("some *text* \\< &amp;")
+
+    for what, h in histories.items():
+        md = configs.make_md(cfg)
+        if not supported(md) or md.options.get("html"):
+            return None
+        try:
+            with contextlib.suppress(KeyError, ValueError):
+                h(md)
+        except Exception:  # noqa: BLE001
+            continue
+        if not supported(md) or md.options.get("html"):
+            continue
+        for src in HISTORY_DOCS:
+            for api in ("render", "renderInline"):
+                try:
+                    out = guarded(getattr(md, api), src)
+                except Exception:  # noqa: BLE001
+                    continue
+                bad = htmlcheck.check(out)
+                if bad:
+                    return {"history": what, "api": api, "src": src, "problem": bad, "html": out[:400],
+                            "active_rules_equal_fresh": md.get_active_rules() == configs.make_md(cfg).get_active_rules()}
+    return None
+
+
 def run(ctx) -> int:
     rep: Reporter = ctx["rep"]
     tier, seed, proofs = ctx["tier"], ctx["seed"], ctx["proofs"]
@@ -73,6 +122,15 @@ def run(ctx) -> int:
     cases, expect, inputs = [], [], []
     direct = None
     n_dir = 0
+    hrng = rng_for("C04", seed, "history")
+    for hk in range(12 if tier == "quick" else 200):
+        hcfg = dict(configs.STANDARD[hk % 5], options=dict(configs.STANDARD[hk % 5]["options"], html=False)) if hk < 5 else html_off_config(hrng)
+        hcfg["options"].pop("highlight", None)
+        n_dir += 1
+        d = history_property(hcfg)
+        if d:
+            direct = {"config": hcfg, **d}
+            break
     for k in range(n):
         cfg = html_off_config(rng)
         if k % 5 == 0:   # html switched off after construction / rules enabled on an html-off preset
@@ -166,14 +224,22 @@ def run(ctx) -> int:
     cov.update({
         "evaluations": len(cases) + n_dir + len(strs) + n_pipe, "distinct_nontrivial": len(set(cases)) + len(set(strs)) + len(set(plines)),
         "pipeline_cases": n_pipe,
-        "rule": "html-off configurations (presets x random rule subsets x renderer options; html switched off by constructor, item and attribute assignment; html rules force-enabled) x documents placing & < > \" ' ` and entity spellings in every data slot (alt, title, href, fence info/lang, code, cell, heading, reference, autolink) or generated documents; streams rendered by implementation and model; output of render and renderInline checked by a strict HTML grammar",
+        "rule": "html-off configurations (presets x random rule subsets x renderer options; html switched off by constructor, item and attribute assignment; html rules force-enabled; instances brought back to an html-off configuration through reset_rules blocks / configure / disable-enable round trips) x documents placing & < > \" ' ` and entity spellings in every data slot (alt, title, href, fence info/lang, code, cell, heading, reference, autolink) or generated documents; streams rendered by implementation and model; output of render and renderInline checked by a strict HTML grammar",
         "samples": inputs[:2], "traces_validated_against_impl": len(cases) + n_pipe, "html_checked": n_dir,
         "in_kernel_cases": kn, "in_kernel_mismatches": len(kbad), "disagreements": len(disagreements),
     })
     return rep.finish("proof", cov, ["default HTML renderer, no highlight callback (as the property states)"])
 
 
+def replay_history(body) -> int:
+    d = history_property(body["config"])
+    print("C04 after a management history:", "VIOLATED " + json.dumps(d, default=str)[:1200] if d else "holds")
+    return 1 if d else 0
+
+
 def replay(body) -> int:
+    if "history" in body and "config" in body:
+        return replay_history(body)
     if "config" in body and "src" in body:
         d = direct_property(body["config"], body["src"])
         print("C04 on implementation:", "VIOLATED " + json.dumps(d, default=str)[:1500] if d else "holds")
